@@ -2,6 +2,7 @@ import SkfemVerif.Drv.Base
 import SkfemVerif.Drv.BC
 import SkfemVerif.Drv.Quad
 import SkfemVerif.Drv.Asm
+import SkfemVerif.Drv.Poly
 /-
 Registry of driver ops contributed by the per-area files: add an import and `++ xxxOps`.
 -/
@@ -9,6 +10,6 @@ open Lean
 namespace Drv
 
 def allOps : List (String × (Json → Option Json)) :=
-  bcOps ++ quadOps ++ asmOps
+  bcOps ++ quadOps ++ asmOps ++ polyOps
 
 end Drv
